@@ -321,7 +321,8 @@ class World:
                     al = sc.get("alarm")
                     if al and al["inj"] == started:
                         # this injector's 24-hour timer fires just before its k-th mutating call (qmail-queue's own SIGALRM handler runs)
-                        env_i["VSHIM_SIGNAL"] = "inj%d:%d:14" % (started, al["k"])
+                        # (or, "after": right after that call has been performed, before the injector sees its result)
+                        env_i["VSHIM_SIGNAL"] = "inj%d:%d:14%s" % (started, al["k"], ":after" if al.get("after") else "")
                         out["classes"].add("injector_alarm")
                     pre = None
                     if al and al["inj"] == started and al.get("blocked"):
@@ -529,6 +530,8 @@ def scenario(draw):
         sc["alarm"] = {"inj": draw(st.integers(0, nm - 1)), "k": draw(st.integers(0, 12))}
         if draw(st.booleans()):
             sc["alarm"]["blocked"] = True
+        if draw(st.integers(0, 2)) == 0:
+            sc["alarm"]["after"] = True
     if not sc.get("crash") and draw(st.integers(0, 4)) == 0:
         sc["fault"] = {"key": draw(st.sampled_from(["send.qmail-send", "send.qmail-send", "clean.qmail-clean", "inj0", "inj1"])),
                        "cls": draw(st.sampled_from(["unlink", "unlink", "unlink", "link", "open", "write", "fsync", "stat", "read"])),
@@ -633,6 +636,9 @@ def crash_sweep_scenarios():
             out.append(dict(base, tape=list(tape), alarm={"inj": 0, "k": k}))
             if k % 3 == 1:
                 out.append(dict(base, tape=list(tape), alarm={"inj": 0, "k": k, "blocked": True}))
+            if not tape:
+                # ... and at the instant each of those calls has been performed, before the injector sees its result (added after seeded change C01-K)
+                out.append(dict(base, tape=[], alarm={"inj": 0, "k": k, "after": True}))
     # one failing unlink()/link() at every position in the daemon and the cleaner (added after seeded change C02-C: the removal order must
     # also survive an I/O error on the step before)
     for key, cls, n in (("send.qmail-send", "unlink", 12), ("clean.qmail-clean", "unlink", 6), ("send.qmail-send", "stat", 10), ("send.qmail-send", "open", 12),
